@@ -13,6 +13,13 @@ pub fn dispatch(op: &str, req: &Value) -> Result<Value, String> {
     if let Some(kind) = op.strip_prefix("idval:") {
         return idval(kind, req);
     }
+    #[cfg(feature = "common")]
+    if let Some(kind) = op.strip_prefix("c04:") {
+        return crate::ops_common::c04(kind, req);
+    }
+    if op == "c19:roundtrip" {
+        return c19(req);
+    }
     if op == "char_pred" {
         let c = req.get("c").and_then(|x| x.as_u64()).ok_or("missing c")? as u32;
         let ch = char::from_u32(c).ok_or("not a scalar value")?;
@@ -72,3 +79,74 @@ fn idval(kind: &str, req: &Value) -> Result<Value, String> {
 
 #[allow(dead_code)]
 fn _unused(req: &Value) { let _ = arg_bytes(req, "x"); }
+
+
+/// string enum round trip through the real `From<&str>` / `AsRef<str>` impls, by enum type path
+fn c19(req: &Value) -> Result<Value, String> {
+    let s = arg_str(req, "s")?;
+    let name = req.get("enum").and_then(|x| x.as_str()).unwrap_or("");
+    let last = name.rsplit("::").next().unwrap_or("");
+    let krate = req.get("crate").and_then(|x| x.as_str()).unwrap_or("");
+    macro_rules! rt {
+        ($t:ty) => {{
+            let v = <$t>::from(s.as_str());
+            let back: &str = v.as_ref();
+            let again = <$t>::from(back);
+            return Ok(json!({"r": "ok", "v": back, "idempotent": again == v, "debug": format!("{v:?}")}));
+        }};
+    }
+    #[cfg(feature = "common")]
+    if krate == "common" {
+        use ruma_common as c;
+        match last {
+            "PresenceState" => rt!(c::presence::PresenceState),
+            "PushFormat" => rt!(c::push::PushFormat),
+            "RuleKind" => rt!(c::push::RuleKind),
+            "DeviceKeyAlgorithm" => rt!(c::DeviceKeyAlgorithm),
+            "SigningKeyAlgorithm" => rt!(c::SigningKeyAlgorithm),
+            "EventEncryptionAlgorithm" => rt!(c::EventEncryptionAlgorithm),
+            "KeyDerivationAlgorithm" => rt!(c::KeyDerivationAlgorithm),
+            "OneTimeKeyAlgorithm" => rt!(c::OneTimeKeyAlgorithm),
+            "RoomType" => rt!(c::room::RoomType),
+            "Medium" => rt!(c::thirdparty::Medium),
+            _ => {}
+        }
+    }
+    #[cfg(feature = "events")]
+    if krate == "events" {
+        use ruma_events as e;
+        match last {
+            "MembershipState" => rt!(e::room::member::MembershipState),
+            "HistoryVisibility" => rt!(e::room::history_visibility::HistoryVisibility),
+            "GuestAccess" => rt!(e::room::guest_access::GuestAccess),
+            "ReceiptType" => rt!(e::receipt::ReceiptType),
+            "RelationType" => rt!(e::relation::RelationType),
+            "VerificationMethod" => rt!(e::key::verification::VerificationMethod),
+            "HashAlgorithm" => rt!(e::key::verification::HashAlgorithm),
+            "KeyAgreementProtocol" => rt!(e::key::verification::KeyAgreementProtocol),
+            "MessageAuthenticationCode" => rt!(e::key::verification::MessageAuthenticationCode),
+            "ShortAuthenticationString" => rt!(e::key::verification::ShortAuthenticationString),
+            "CancelCode" => rt!(e::key::verification::cancel::CancelCode),
+            _ => {}
+        }
+        macro_rules! rt_ev {
+            ($t:ty) => {{
+                let v = <$t>::from(s.as_str());
+                let back = v.to_string();
+                let again = <$t>::from(back.as_str());
+                return Ok(json!({"r": "ok", "v": back, "idempotent": again == v, "debug": format!("{v:?}")}));
+            }};
+        }
+        match last {
+            "TimelineEventType" => rt_ev!(e::TimelineEventType),
+            "StateEventType" => rt_ev!(e::StateEventType),
+            "MessageLikeEventType" => rt_ev!(e::MessageLikeEventType),
+            "EphemeralRoomEventType" => rt_ev!(e::EphemeralRoomEventType),
+            "GlobalAccountDataEventType" => rt_ev!(e::GlobalAccountDataEventType),
+            "RoomAccountDataEventType" => rt_ev!(e::RoomAccountDataEventType),
+            "ToDeviceEventType" => rt_ev!(e::ToDeviceEventType),
+            _ => {}
+        }
+    }
+    Ok(json!({"r": "unknown-enum"}))
+}
